@@ -3,6 +3,7 @@ package main
 import (
 	"context"
 	"fmt"
+	"time"
 
 	"github.com/btcsuite/btcd/chaincfg/chainhash"
 	goelectrum "github.com/checksum0/go-electrum/electrum"
@@ -112,6 +113,18 @@ func init() {
 			depth := uint32(int64(csv) + r.pickI64([]int64{-3, -2, -1, 0, 1, 5}))
 			rig.rpc.set(rpcView{txout: &txwatcher.TxOutResp{Confirmations: depth}})
 			rig.w.AddWaitForCsvTx("swap", "txid", 0, 100, csv, nil)
+			if depth >= csv {
+				// an output that is already mature at registration is reported from a goroutine of the watcher's own
+				for k := 0; k < 400; k++ {
+					rig.mu.Lock()
+					got := len(rig.csv)
+					rig.mu.Unlock()
+					if got > 0 {
+						break
+					}
+					time.Sleep(250 * time.Microsecond)
+				}
+			}
 			var sched []uint32
 			for k := 0; k < 6; k++ {
 				rig.mu.Lock()
